@@ -155,9 +155,9 @@ pub struct PreAggAdapter {
     /// write an `error:` line for a row the operator cannot process (the adapter follows a sort,
     /// not an aggregation: the row is dropped with a message like anywhere before an aggregation)
     report_errors: bool,
-    /// error lines written so far: a live view runs the adapter again on every refresh, over a
-    /// table that only grows, and each failing row is reported once
-    reported: usize,
+    /// how often each message has been written so far: a live view runs the adapter again on
+    /// every refresh, over the current output of the sort, and a failing row is reported once
+    reported: HashMap<String, usize>,
 }
 
 impl PreAggAdapter {
@@ -169,7 +169,7 @@ impl PreAggAdapter {
                 data: Vec::new(),
             },
             report_errors: false,
-            reported: 0,
+            reported: HashMap::new(),
         }
     }
 
@@ -200,8 +200,8 @@ impl AggregateOperator for PreAggAdapter {
             Row::Record(_) => panic!("PreAgg adaptor should only be used after aggregates"),
             Row::Aggregate(agg) => {
                 let mut op = self.op_builder.build();
-                let mut failed = 0;
-                let (report_errors, reported) = (self.report_errors, self.reported);
+                let mut failed: HashMap<String, usize> = HashMap::new();
+                let (report_errors, reported) = (self.report_errors, &self.reported);
                 let mut processed_records: Vec<data::VMap> = agg
                     .data
                     .into_iter()
@@ -212,16 +212,23 @@ impl AggregateOperator for PreAggAdapter {
                     .flat_map(|rec| match op.process_mut(rec) {
                         Ok(rec) => rec,
                         Err(err) => {
-                            failed += 1;
-                            if report_errors && failed > reported {
-                                complain!("error: {}", err);
+                            if report_errors {
+                                let message = err.to_string();
+                                let seen = failed.entry(message.clone()).or_insert(0);
+                                *seen += 1;
+                                if *seen > reported.get(&message).copied().unwrap_or(0) {
+                                    complain!("error: {}", message);
+                                }
                             }
                             None
                         }
                     })
                     .map(|rec| rec.data)
                     .collect();
-                self.reported = self.reported.max(failed);
+                for (message, count) in failed {
+                    let known = self.reported.entry(message).or_insert(0);
+                    *known = (*known).max(count);
+                }
                 processed_records.extend(op.drain().map(|rec| rec.data));
                 let output_column_set: HashSet<String> = processed_records
                     .iter()
